@@ -34,7 +34,7 @@ ties = {
  'C06': 'c06.rs: enc/dec around limits, declared lengths to 2^32−1, allocation observer, lim.srv/lim.cli (all four shapes, builder/apply/clone)',
  'C07': 'c07.rs: hostile dec (mutations, truncation at every byte, wrong length prefixes, body errors, mid-stream trailers); thorough: exhaustive small chunkings × special events',
  'C08': 'c08.rs: bin, binw, bineq, ascv, key, acc, iter, ops, hmap, e2e (real client↔server); c08_entry.rs: eops (entry API operation sequences); c08_api.rs: kctor, vctor, veq, ferr (Status::from_error chains, RecoverError)',
- 'C09': 'c09.rs: enc, encs, parse (hook), run (GrpcTimeout under RecoverError, paused time; raw header values), e2e, cli (silent / stalling / Routes peers that enforce nothing), srv (bare h2 client), seq (repeated set_timeout, builder orders)',
+ 'C09': 'c09.rs: enc, encs, parse (hook), run (GrpcTimeout under RecoverError, paused time; raw header values), e2e, cli (silent / stalling / Routes peers that enforce nothing), srv (bare h2 client), seq (repeated set_timeout, builder orders), runl / clil / e2el (late-polling callers), mw / chan / chano / conn / conno (several calls through one middleware value / one Channel / one server connection, sequential and overlapping)',
  'C10': 'c10.rs + build.rs pool of 17 generated services: call, plan (every construction of the router: 14 starts × op sequences, Routes oneshot and real transport server), rewriting interceptors, ~35 path mutations per method',
  'C11': 'c11.rs: gen, manual, prost (syn-parsed output; message kinds × compile_well_known_types × proto_path × extern), srv (compiled generated servers driven directly), e2e, regen (byte comparison of the 8 committed files)',
  'C12': 'c12.rs: line, status, ops, pairs, accept, reject, seq, ready, odd, routed, client',
